@@ -23,10 +23,35 @@ def close(a, b):
     return abs(a - b) <= TOL * abs(b)
 
 
+def cubic_expected(cub, cw, ss, rtt, now):
+    """TCPCubic.ack_received in congestion avoidance (cw > ss) over exact fractions: (cnt, new epoch state);
+    cnt None = the cube-root branch would be taken.  cub = [W_last_max, epoch_start, origin_point, d_min, W_tcp, K, ack_cnt]"""
+    wlast, epoch, origin, dmin, wtcp, k = (T.fr(x) for x in cub[:6])
+    ack = cub[6]
+    dmin = (rtt if rtt < dmin else dmin) if dmin > 0 else rtt
+    ack += 1
+    if epoch <= 0:
+        epoch = now
+        if cw < wlast:
+            return None, None
+        k, origin = F(0), cw
+        ack = 1
+        wtcp = cw
+    t = now + dmin - epoch
+    target = origin + F(2, 5) * (t - k) ** 3
+    cnt = cw / (target - cw) if target > cw else 100 * cw
+    wtcp += 3 * F(1, 5) / (2 - F(1, 5)) * (F(ack) / cw)
+    if wtcp > cw:
+        mx = cw / (wtcp - cw)
+        if cnt > mx:
+            cnt = mx
+    return cnt, [wlast, epoch, origin, dmin, wtcp, k, 0]
+
+
 class C17(Prop):
     id = "C17"
     props_file = "Props/C17.v"
-    coq_imports = ["From ONL Require Import Base.Cmp Tcp.Sender."]
+    coq_imports = ["From ONL Require Import Base.Cmp Tcp.Sender Tcp.Cubic."]
     n_quick = 700
     n_thorough = 12000
     shard = 60
@@ -42,7 +67,10 @@ class C17(Prop):
         "correspondence is per transition: the model is stepped from the OBSERVED pre-state and must reproduce the observed "
         "post-state exactly on all integral/boolean fields, on the transmitted segments and on the timer table keys, and within a relative "
         "1e-12 on cwnd, ssthresh, rtt_estimate, est_deviation, rto and armed timeouts (binary64 rounding is outside the Q theorems)",
-        "TCPCubic.cnt (computed with libm `**` in cubic_update) is an input oracle of the model: the value the real code computed is fed to the model's counting rule",
+        "TCPCubic is modelled exactly over Q (coq/Tcp/Cubic.v: C = 2/5, beta = 1/5, (t-K)**3 an integer power; the cube-root branch is an explicit "
+        "error proved unreachable); its epoch state (W_last_max, epoch_start, origin_point, d_min, W_tcp, K, ack_cnt) is read from the real object after "
+        "every event and compared: exactly where the code copies values, W_tcp within 1e-9, cnt within 1e-5 relative "
+        "(max_cnt = cwnd/(W_tcp - cwnd) is ill-conditioned in binary64: relative error about 3*cwnd^2*2^-52)",
         "props/tcp_common.py:translate_cc (Python ast, fail-closed) regenerates coq/Gen/Extracted_cc.v from the CongestionControl / TCPReno method bodies "
         "of the tree under test before every build; the C17_gen_* theorems bridge them to the hand-written model",
         "the Timer is taken as specified by C19 (fires its callback once at creation+timeout unless stopped; restart from its own callback re-arms); "
@@ -50,9 +78,8 @@ class C17(Prop):
     ]
     assumptions = ["mss > 0, flow.size a multiple of the MSS (or None), no arrival_dist/size_dist, flow.start_time None, finish_time infinite",
                    "RTT samples are non-negative (ack.time <= now); initial rtt_estimate > 0"]
-    partial = ["TCPCubic: the numeric value of the cubic / TCP-friendly target (cubic_update, cubic_tcp_friendliness: libm `**`, epoch state "
-               "W_last_max, K, origin_point, W_tcp, d_min) is modelled as an oracle for `cnt`; proved and compared for CUBIC are slow start, the "
-               "cnt/cwnd_cnt counting rule, the shared loss rules and cwnd >= MSS, not the growth function itself"]
+    partial = ["the second tie (translated method bodies, Gen/Extracted_cc.v) covers CongestionControl and TCPReno; the TCPCubic methods are tied by the "
+               "correspondence and the monitor only"]
 
     # ---- generation -------------------------------------------------------------------------
     def gen_case(self, rng, tier):
@@ -128,6 +155,11 @@ class C17(Prop):
         cfg = T.coq_cfg(case)
         init = f"(init {cf.q(case['cwnd'])} {cf.q(case['ssth'])} {cf.q(case['rtt0'])})"
         st0 = T.coq_state(obs["init"])
+        if case["alg"] == "cubic":
+            # the exact CUBIC model: cnt is computed, not fed
+            ents = cf.lst([T.coq_xentry(e) for e in obs["entries"]], sep=";\n  ")
+            return (f"state_exact {init} {st0} && cubic_close cubic0 {T.coq_cubic(obs['init'])} && "
+                    f"check_tracex {FX} {cfg} {st0} {T.coq_cubic(obs['init'])}\n [{ents[1:-1]}]")
         ents = cf.lst([T.coq_entry(e) for e in obs["entries"]], sep=";\n  ")
         return f"state_exact {init} {st0} && check_trace {FX} {cfg} {st0}\n [{ents[1:-1]}]"
 
@@ -203,7 +235,19 @@ class C17(Prop):
                         ok = close(cw2, base + F(mss * mss) / base)
                         want = f"{base + F(mss * mss) / base} (congestion avoidance)"
                     else:
-                        # CUBIC counting rule on the cnt the implementation computed
+                        # CUBIC: the cubic / TCP-friendly growth recomputed with exact fractions (C = 2/5, beta = 1/5),
+                        # then the counting rule on it
+                        exp_cnt, exp_cub = cubic_expected(pre["cub"], base, ss, sample, T.fr(e["t"]))
+                        got_cub = post["cub"]
+                        if exp_cnt is None:
+                            msgs.append(f"cubic-growth: event {i}: cwnd {base} < W_last_max {pre['cub'][0]}: the cube-root branch was taken")
+                        elif not (abs(q(post, "cnt") - exp_cnt) <= F(1, 10 ** 5) * abs(exp_cnt)
+                                  and T.fr(got_cub[1]) == exp_cub[1] and close(T.fr(got_cub[2]), exp_cub[2])
+                                  and T.fr(got_cub[3]) == exp_cub[3]
+                                  and abs(T.fr(got_cub[4]) - exp_cub[4]) <= F(1, 10 ** 9) * abs(exp_cub[4])
+                                  and T.fr(got_cub[5]) == 0 and got_cub[6] == exp_cub[6] and T.fr(got_cub[0]) == 0):
+                            msgs.append(f"cubic-growth: event {i}: cwnd {base} t={e['t']} rtt {sample} state {pre['cub']}: cnt {float(q(post, 'cnt')):.9g} "
+                                        f"state {got_cub}, expected cnt {float(exp_cnt):.9g} state {[str(x) for x in exp_cub]}")
                         if pre["ccnt"] > q(post, "cnt"):
                             ok = close(cw2, base + mss) and post["ccnt"] == 0
                         else:
